@@ -38,6 +38,8 @@ def validate(doc, triples, pairs):
         S=shapes.get(sh)
         if S is None: return ["undefined shape "+sh]
         why=[]
+        if getattr(S,'stem',None) is not None and not (not str(n).startswith('_:') and str(n).startswith(S.stem)):
+            why.append("focus node is not an IRI starting with the stem <%s> of the shape's node constraint"%S.stem)
         fam=defaultdict(list)
         for c in S.constraints: fam[(c.inverse,c.pred)].append(c)
         for (inv,p),cs in fam.items():
